@@ -2852,6 +2852,16 @@ impl<T: Storage> Raft<T> {
 
     /// Regenerates and stores the election timeout.
     pub fn reset_randomized_election_timeout(&mut self) {
+        #[cfg(tikv_raft_rs_verif)]
+        {
+            // Verification hook: deterministic timeout source for the external harness.
+            crate::verif_export::TIMEOUT_RESETS.with(|c| c.set(c.get() + 1));
+            let t = crate::verif_export::NEXT_ELECTION_TIMEOUT.with(|c| c.get());
+            if self.min_election_timeout <= t && t < self.max_election_timeout {
+                self.randomized_election_timeout = t;
+                return;
+            }
+        }
         let prev_timeout = self.randomized_election_timeout;
         let timeout =
             rand::thread_rng().gen_range(self.min_election_timeout..self.max_election_timeout);
